@@ -17,6 +17,28 @@ static struct { Conn *c; int side; } g_fdmap[1024];
 typedef struct { int hdr_got; size_t body_left; uint8_t hdr[5]; } TxFrame;
 static TxFrame g_tx[NET_MAX_CONN][2];
 char g_net_violation[160];
+const char *g_net_violation_tag = "send_overrun";
+
+/* arrays inside library objects that the library hands to recv(): a recv() that RETURNS more bytes than fit
+ * between its destination and the end of the array wrote outside that array (inside TLS_CONNECT the next
+ * field absorbs it, so no sanitizer sees it) */
+static struct { const uint8_t *base; size_t size; const char *name; } g_guard[16];
+static int g_nguard;
+void net_guard_array(const void *base, size_t size, const char *name)
+{
+	if (g_nguard < 16) { g_guard[g_nguard].base = base; g_guard[g_nguard].size = size; g_guard[g_nguard].name = name; g_nguard++; }
+}
+static void rx_guard_check(const uint8_t *buf, size_t asked, size_t got)
+{
+	for (int i = 0; i < g_nguard; i++) {
+		const uint8_t *b = g_guard[i].base, *e = b + g_guard[i].size;
+		if (buf >= b && buf < e && buf + got > e && !g_net_violation[0]) {
+			g_net_violation_tag = "recv_overrun";
+			snprintf(g_net_violation, sizeof(g_net_violation), "recv() into %s at offset %zu asked for %zu bytes and stored %zu: %zu bytes beyond the end of the %zu-byte array",
+				g_guard[i].name, (size_t)(buf - b), asked, got, (size_t)(buf + got - e), g_guard[i].size);
+		}
+	}
+}
 
 static int plausible_hdr(const uint8_t *h)
 {
@@ -74,7 +96,7 @@ void net_reset(void)
 	}
 	memset(g_rx, 0, sizeof(g_rx));
 	memset(g_tx, 0, sizeof(g_tx));
-	g_net_violation[0] = 0;
+	g_net_violation[0] = 0; g_net_violation_tag = "send_overrun"; g_nguard = 0;
 	g_nconns = 0;
 }
 
@@ -139,6 +161,7 @@ static void seg_push(Pipe *p, size_t end, int64_t at)
 }
 
 /* append bytes to the delivered stream of (c,dir), cutting them into segments */
+static int pipe_sender_in_hs(Pipe *p);
 void net_forward(Conn *c, int dir, const uint8_t *data, size_t len)
 {
 	Pipe *p = &c->pipe[dir];
@@ -149,6 +172,7 @@ void net_forward(Conn *c, int dir, const uint8_t *data, size_t len)
 	size_t pos = p->wr, end = p->wr + len;
 	p->wr = end;
 	int style = k->seg_style;
+	if (k->seg_late && pipe_sender_in_hs(p)) style = 0;     /* segmentation starts only once the sender has finished its handshake */
 	size_t onebyte_budget = 600;
 	while (pos < end) {
 		size_t n = end - pos;
@@ -356,13 +380,14 @@ ssize_t net_recv(int fd, void *buf, size_t len)
 		if (sim_block(pred_readable, p) < 0) { errno = ECONNRESET; return -1; }
 	}
 	size_t n = first_seg_avail(p);
-	if (k->seg_style == 4 || rng_chance(&c->net, 1, 8)) {
+	if (k->seg_style == 4 || rng_chance(&c->net, 1, 4)) {
 		size_t all = arrived(p);
 		if (all > n) { n = all; g_sim.probes[PR_COALESCED]++; }
 	}
 	if (n > len) n = len;
 	else if (n < len) { p->n_short_rd++; g_sim.probes[PR_SHORT_READ]++; }
 	sim_copy(buf, p->buf + p->rd, n);
+	rx_guard_check(buf, len, n);
 	/* receive-side framing, to know whether the reader is at a record boundary */
 	for (size_t i = 0; i < n; i++) {
 		if (rx->body_left) { size_t m = n - i < rx->body_left ? n - i : rx->body_left; rx->body_left -= m; i += m - 1; continue; }
